@@ -262,6 +262,10 @@ func (e *Env) preload(ad *recCore) {
 				put([]byte(`{"id":"bad","status":"Queued","data":"a string, not a payload"}`), 0)
 			case 3:
 				put(12345, 0)
+			case 5: // a well-formed entry followed by garbage
+				put([]byte(`{"id":"bad","status":"Queued","data":{"n":-7}} trailing garbage`), 0)
+			case 6: // two entries glued together
+				put([]byte(`{"id":"bad","status":"Queued","data":{"n":-8}}{"id":"bad2","status":"Queued","data":{"n":-9}}`), 0)
 			default:
 				put([]byte(`{"id":"bad","status":"Queued","data":{"n":`), 0)
 			}
